@@ -38,6 +38,36 @@ def alpha_vec(rng, ty):
     return tuple(out)
 
 
+F19_CLASS = "dirichlet-gamma-f32-underflow"
+
+
+def f19_class(ty, alpha, values):
+    """known finding F19: DirichletFromGamma<f32> (some alpha > fl(0.1)) with an entry below 0.19 - a Gamma(alpha) draw
+    Gamma(alpha+1) * u^(1/alpha) can then fall below the binary32 normal range (u >= 2^-24, 24/alpha > 126), the sum of the draws is
+    subnormal, 1/sum overflows to +inf and every component becomes g*inf = inf (g > 0) or 0*inf = NaN.  Decidable from the record:
+    binary32, gamma path, an alpha < 0.19, and EVERY component of the failing sample is inf or NaN."""
+    thr = S.f_round("f32", 0.1)
+    return (ty == "f32" and any(x > thr for x in alpha) and min(alpha) < 0.19 and len(values) == len(alpha)
+            and all((x != x) or x == math.inf for x in values) and any(x != x for x in values))
+
+
+def match_known(f, kf):
+    for k in kf:
+        if k.get("class") == f.get("class"):
+            return k
+    return None
+
+
+def replay_known(ctx, k):
+    w = k.get("witness", {})
+    if "harness_line" not in w:
+        return None
+    out = run_harness_parallel(ctx["binary"], [w["harness_line"]])[0]
+    if w.get("expect") and w["expect"] in out:
+        return {"what": k["what"], "harness_line": w["harness_line"], "out": out}
+    return None
+
+
 def correspond(ctx):
     rng, tier = ctx["rng"], ctx["tier"]
     n = 110 if tier == "quick" else 5000
@@ -73,7 +103,7 @@ def correspond(ctx):
         if r["slice_equal"] is False:
             bad = bad or "sample() and sample_to_slice() differ on the same stream"
         if bad:
-            oracle_failures.append({"property": PID, "class": "dirichlet", "harness_line": r["line"][:400],
+            oracle_failures.append({"property": PID, "class": F19_CLASS if f19_class(ty, a, v) else "dirichlet", "harness_line": r["line"][:400],
                                     "what": "Dirichlet<%s>(%s): %s" % (ty, list(a), bad)})
         c = r["code"]
         if c is None:
@@ -97,7 +127,16 @@ def correspond(ctx):
         f = dict(x.split("=", 1) for x in o.split(" "))
         bulk += int(f["n"])
         if int(f["bad"]) or int(f["nan"]):
-            oracle_failures.append({"property": PID, "class": "dirichlet", "harness_line": line[:300],
+            cls = "dirichlet"
+            try:      # classify by the first failing sample when no sample left the simplex otherwise
+                bty = line.split()[2]
+                balpha = [S.bits_val(bty, h) for h in line.split()[3].split(",")]
+                bvals = [float(x) for x in f["first"].split(":", 1)[1].strip("[]").split(",")]
+                if int(f["bad"]) == 0 and f19_class(bty, balpha, bvals):
+                    cls = F19_CLASS
+            except Exception:
+                pass
+            oracle_failures.append({"property": PID, "class": cls, "harness_line": line[:300],
                                     "what": "%s of %s seeded Dirichlet samples leave the simplex, %s contain NaN (first: %s)" % (f["bad"], f["n"], f["nan"], f["first"][:200])})
     return {
         "evaluations": len(jobs) + bulk, "distinct_nontrivial": len({(j[1], j[2], tuple(j[3][:3])) for j in jobs}),
